@@ -45,7 +45,8 @@ PROPS['C12'] = dict(
     level_text='constructors, clamps, flag codec and redundancy tests proved (Kani, every bit pattern of every argument); pending-group state machine proved (Verus, unbounded); the line parser is a bounded stand-in over listed text templates with nondeterministic numeric results',
     level_note='assumed: str::parse / dec2flt (digit strings to numbers) is replaced by a nondeterministic value constrained by the proved parse_with_limits contract; text shapes outside the templates are not decided; ordering of the result lists is C13',
     verus=[dict(unit='c12', tier='quick')],
-    kani=['support.kc', 'c12_points.kc', 'tp_lines.kc'],
+    kani=['support.kc', 'c12_points.kc', 'tp_lines.kc', 'c13.kc'],
+    only_prefix=['c12_', 'tp_line_', 'c13_twin_redundant'],
     kani_functions=['src/section/timing_points/control_points/timing.rs :: TimingPoint::new, TimeSignature::new, Default',
                     'src/section/timing_points/control_points/difficulty.rs :: DifficultyPoint::new, is_redundant, Default',
                     'src/section/timing_points/control_points/effect.rs :: EffectPoint::new, is_redundant, Default',
@@ -108,8 +109,8 @@ PROPS['C06'] = dict(
     technique='Kani frame contracts (Err => state equals old state) on the real section line parsers, run on concrete text templates with every numeric conversion replaced by "any value or an error"',
     level_text='bounded stand-in: for each listed text template the harness covers every value of every numeric field and a rejection at every conversion point after every amount of partial progress; on Err the observable parser state (hit objects, last-object marker, state-held path buffer, pending control-point slots and group time) equals the state before the line',
     level_note='assumed: std text->number conversion (replaced by nondeterministic results), memchr_aligned == naive search; text shapes outside the templates are not decided; flush_pending_points is used through its Verus-proved contract',
-    verus=[], kani=['support.kc', 'ho_lines.kc', 'tp_lines.kc'],
-    only_prefix=['ho_path_', 'ho_line_', 'tp_line_'],
+    verus=[], kani=['support.kc', 'ho_lines.kc', 'tp_lines.kc', 'c11_sections.kc'],
+    only_prefix=['ho_path_', 'ho_line_', 'tp_line_', 'c11_difficulty_', 'c11_general_', 'c11_event_', 'c11_color_'],
     kani_functions=['src/section/hit_objects/decode.rs :: impl HitObjectsState :: fn convert_path_str / fn convert_points / fn point_split',
                     'src/section/hit_objects/decode.rs :: impl DecodeBeatmap for HitObjects :: fn parse_hit_objects',
                     'src/section/timing_points/decode.rs :: impl DecodeBeatmap for TimingPoints :: fn parse_timing_points'],
@@ -120,10 +121,10 @@ PROPS['C06'] = dict(
 )
 
 PROPS['C07'] = dict(
-    category='proof',
+    category='other',
     technique='Kani loop-free wiring contracts: each delegating parse_* function is verified against a recording stand-in for its callee (callers are checked against callee interfaces, not bodies); state->value conversions verified field by field over all scalar values',
     level_text='proved (Kani, loop-free): all 13 delegation steps Beatmap -> HitObjects -> TimingPoints -> General (and -> Editor/Metadata/Colors/Difficulty/Events) call exactly the right inner parser once on exactly the right sub-state with the same line and return its Ok/Err; ignored sections return Ok(()); State->value conversions copy the format version and every scalar field bit-exactly',
-    level_note='agreement of the nine decoders on every input follows because DecodeBeatmap::decode is one shared default method (no impl overrides decode or should_skip_line: scanned on every run); moved collections (strings, vectors) are checked only for the empty case; the line is an arbitrary fixed text since the wiring does not inspect it',
+    level_note='agreement of the nine decoders on every input follows because DecodeBeatmap::decode is one shared default method (no impl overrides decode or should_skip_line: scanned on every run); moved collections: breaks (order preserved) and the background file are checked on a two-break state (bounded), the others only for the empty case; the line is an arbitrary fixed text since the wiring does not inspect it',
     verus=[], kani=['c07.kc', 'c07_tp.kc'],
     kani_functions=['src/beatmap.rs :: impl DecodeBeatmap for Beatmap :: fn parse_* (11)', 'src/section/hit_objects/decode.rs :: impl DecodeBeatmap for HitObjects :: fn parse_* (11)',
                     'src/section/timing_points/decode.rs :: impl DecodeBeatmap for TimingPoints :: fn parse_* (11)', 'src/beatmap.rs :: impl From<BeatmapState> for Beatmap',
@@ -152,8 +153,10 @@ PROPS['C11'] = dict(
     technique='Kani contracts on the record parsers: key/value split and comment stripping on listed text templates against an independent reference; value conversions on templates with every numeric field replaced by "any value or an error"; key tables enumerated exhaustively',
     level_text='bounded stand-in for the text layer (listed templates for KeyValue::parse, trim_comment, each section record kind), with every numeric value / rejection covered per template; section key tables proved inverse (from_str(as_str(k)) == k) for every variant; numeric limit checks proved (Kani, full domain) under C01',
     level_note='assumed: std text->number conversion replaced by nondeterministic results; text shapes outside the templates not decided; "last valid occurrence wins" follows from the per-record contracts (each handler assigns its field or leaves the state unchanged) and is not run as a sequence',
-    verus=[], kani=['support.kc', 'c11_kv.kc'],
-    kani_functions=['src/util/key_value.rs :: impl KeyValue :: fn parse', 'src/util/str_ext.rs :: impl StrExt for str :: fn trim_comment'],
+    verus=[], kani=['support.kc', 'c11_kv.kc', 'c11_sections.kc'],
+    kani_functions=['src/util/key_value.rs :: impl KeyValue :: fn parse', 'src/util/str_ext.rs :: impl StrExt for str :: fn trim_comment',
+                    'src/section/difficulty.rs :: impl DecodeBeatmap for Difficulty :: fn parse_difficulty', 'src/section/general/decode.rs :: impl DecodeBeatmap for General :: fn parse_general',
+                    'src/section/events/decode.rs :: impl DecodeBeatmap for Events :: fn parse_events (break records)', 'src/section/colors/decode.rs :: impl DecodeBeatmap for Colors :: fn parse_colors', 'src/section/colors/mod.rs :: impl FromStr for Color'],
     explanation='see level_text; per-obligation statements in coverage.samples[].states',
     trusted_base=COMMON_TRUST + ['contracts/support.kc stand-ins for std FromStr of f64/f32/i32/u8'], assumptions=[],
     not_decided=['digit strings -> numbers', 'record sequences end-to-end'],
